@@ -12,6 +12,7 @@ import (
 	user "github.com/mimecast/dtail/internal/user/server"
 	"github.com/mimecast/dtail/verifharness/internal/dt"
 	"github.com/mimecast/dtail/verifharness/internal/vlib"
+	"strings"
 	"sync"
 	"time"
 )
@@ -63,6 +64,20 @@ func c10HandlerChild(args []string) int {
 		h.Write(data)
 		// let the command goroutines run: a panic in any of them ends this process
 		time.Sleep(40 * time.Millisecond)
+		if strings.Contains(in.Class, "broken-compressed-file") {
+			// let the read reach the point where the stream breaks: the server
+			// reports the reader's error to the session
+			for w := 0; w < 100; w++ {
+				time.Sleep(100 * time.Millisecond)
+				omu.Lock()
+				seen := bytes.Contains(out.Bytes(), []byte("ERROR"))
+				omu.Unlock()
+				if seen {
+					time.Sleep(200 * time.Millisecond)
+					break
+				}
+			}
+		}
 		h.Shutdown()
 		close(stop)
 		select {
